@@ -6,6 +6,8 @@ from registry import PROPS, META
 NOT_YET = {}
 
 ALL = [f"C{i:02d}" for i in range(1, 21)]
+READY = set(open(os.path.join(os.path.dirname(os.path.abspath(__file__)), "checks", "ready.txt")).read().split())
+PROPS = {k: v for k, v in PROPS.items() if k in READY}   # only vetted checks are claimed
 checks = []
 for pid in ALL:
     if pid not in PROPS:
